@@ -287,13 +287,24 @@ let run_case (line : string) =
   print_string (Buffer.contents b);
   print_newline ()
 
+exception Case_timeout
+
+let case_timeout : float =
+  match Sys.getenv_opt "DRIVER_CASE_TIMEOUT" with Some s -> float_of_string s | None -> 20.0
+
 let () =
+  Sys.set_signal Sys.sigalrm (Sys.Signal_handle (fun _ -> Stdlib.raise Case_timeout));
   let ic = if Array.length Sys.argv > 1 then open_in Sys.argv.(1) else stdin in
   (try
      while true do
        let line = input_line ic in
        if String.length line > 0 then
-         (try run_case line with
+         (try
+            ignore (Unix.setitimer Unix.ITIMER_REAL { Unix.it_interval = 0.0; Unix.it_value = case_timeout });
+            (try run_case line with e -> ignore (Unix.setitimer Unix.ITIMER_REAL { Unix.it_interval = 0.0; Unix.it_value = 0.0 }); Stdlib.raise e);
+            ignore (Unix.setitimer Unix.ITIMER_REAL { Unix.it_interval = 0.0; Unix.it_value = 0.0 })
+          with
+          | Case_timeout -> print_string "{\"status\":\"UNMOD\",\"err\":\"model too slow\"}\n"; flush stdout
           | Stack_overflow -> print_string "{\"status\":\"DRIVER\",\"err\":\"Stack_overflow\"}\n"
           | Failure m -> print_string ("{\"status\":\"DRIVER\",\"err\":\"" ^ String.escaped m ^ "\"}\n")
           | Not_found | Invalid_argument _ -> print_string "{\"status\":\"DRIVER\",\"err\":\"parse\"}\n")
